@@ -28,8 +28,8 @@ type Item struct {
 
 type Layout struct {
 	FinalNL  bool   `json:"final_nl"`
-	Blank    bool   `json:"blank"`    // blank lines between (and before) entries
-	Surround bool   `json:"surround"` // spaces around header/uri lines
+	Blank    bool   `json:"blank"`          // blank lines between (and before) entries
+	Surround bool   `json:"surround"`       // spaces around header/uri lines
 	JSON     string `json:"json,omitempty"` // lines | pretty | array | arraypretty
 }
 
